@@ -11,6 +11,8 @@
 // mode=long  case index = random long message (repeated pattern), random chunking
 // mode=sip   case index = key number; lengths 0..129 x offsets 0..15
 #include <verif.hpp>
+
+#include <memory>
 #include <slice.hpp>
 
 #include <tlx/digest/md5.hpp>
@@ -77,17 +79,22 @@ struct Algo {
 template <typename H>
 static std::string digest_chunked(const std::string& msg, const std::vector<size_t>& cuts, bool via_sv) {
     verif::Slice m(msg);   // the message bytes are not followed by a terminator or slack
-    H h;
-    size_t prev = 0;
+    // the context object is copied (and the original destroyed) in the middle of the stream:
+    // a digest in progress is a value
+    std::unique_ptr<H> hp(new H());
+    size_t prev = 0, k = 0;
     for (size_t c : cuts) {
-        if (via_sv) h.process(tlx::string_view(m.data() + prev, c - prev));
-        else h.process(m.data() + prev, (std::uint32_t)(c - prev));
+        if (via_sv) hp->process(tlx::string_view(m.data() + prev, c - prev));
+        else hp->process(m.data() + prev, (std::uint32_t)(c - prev));
         prev = c;
+        if (++k == (cuts.size() + 1) / 2) { std::unique_ptr<H> copy(new H(*hp)); hp.swap(copy); }
     }
-    if (via_sv) h.process(tlx::string_view(m.data() + prev, m.size() - prev));
-    else h.process(m.data() + prev, (std::uint32_t)(m.size() - prev));
+    if (via_sv) hp->process(tlx::string_view(m.data() + prev, m.size() - prev));
+    else hp->process(m.data() + prev, (std::uint32_t)(m.size() - prev));
     ++g_chunkings;
-    return h.digest();
+    H last = *hp;     // and once more right before finishing
+    hp.reset();
+    return last.digest();
 }
 
 template <typename H>
